@@ -134,6 +134,10 @@ func String(name string) string {
 	return v
 }
 
+// Concrete returns v; under the engine the exploration forks over every feasible value of v so that the result is a
+// constant on each path (use it for small-range shape parameters such as list lengths and cursors).
+func Concrete(v int) int { return v }
+
 // Bound returns the tier-dependent concrete bound of that name.
 func Bound(name string, quick, thorough int) int {
 	if v, ok := rp.Bounds[name]; ok {
